@@ -52,3 +52,14 @@ Definition phi_sp_ok (tol eps : Qc) (S : sparse Qc) (X : dense Qc) (n : nat) (K 
   list_eqb (list_eqb (qclose tol)) (qphi_sp eps S n K) obs_sp &&
   list_eqb (list_eqb (qclose tol)) (qphi_dense eps X n K) obs_dense &&
   list_eqb (list_eqb Qc_eq_bool) (qphi_sp eps S n K) (qphi_dense eps X n K).
+
+(* ---- tt_loglikelihood called directly on a sparse holder (Model/C11LogLik.v): Kn = the model as the call left it (normalised in
+   place, weights absorbed into mode 0).  The harness evaluates sum_k vals[k] * log(rowsum[k]) - msum with math.log from the literals
+   [rowsums] / [msum_h]; here they are checked to be EXACTLY the model's ll_rowsum at the stored subscripts / msum of factor 0. *)
+From PV Require Import Model.C11LogLik.
+Definition ll_sp_ok (tol : Qc) (S : sparse Qc) (K Kn : ktensor Qc) (rowsums : list Qc) (msum_h : Qc) : bool :=
+  list_eqb Qc_eq_bool (map (fun e => ll_rowsum q0 q1 Qcplus Qcmult (kfactors Kn) (krank Kn) (fst e)) (entries S)) rowsums &&
+  Qc_eq_bool (msum q0 Qcplus (nth 0 (kfactors Kn) [])) msum_h &&
+  forallb (Qc_eq_bool q1) (kweights Kn) &&
+  nvec_eqb (kshape Kn) (sshape S) &&
+  forallb (fun i => qclose tol (qden_k K i) (qden_k Kn i)) (allsubs (sshape S)).
